@@ -164,14 +164,16 @@ def harness(cfg, ns):
 
         class FakeCont:
             @staticmethod
-            def from_csv(path, delimiter=","):
-                log["load"].append(("csv", path, delimiter))
+            def from_csv(path, delimiter=",", **options):
+                # any further reader option makes the command line read the file differently from the API call of the statement
+                # (Continuum.from_csv(path, delimiter=separator)): recorded, and reported through the loading obligation
+                log["load"].append(("csv", path, delimiter) + ((tuple(sorted(options.items())),) if options else ()))
                 log["events"].append("load")
                 return Cont(path)
 
             @staticmethod
-            def from_rttm(path):
-                log["load"].append(("rttm", path))
+            def from_rttm(path, **options):
+                log["load"].append(("rttm", path) + ((tuple(sorted(options.items())),) if options else ()))
                 log["events"].append("load")
                 return Cont(path)
 
@@ -464,6 +466,31 @@ def _replay_one(case, abd=(2.0, 1.5, 0.75)):
                 bad.append(f"JSON gamma {doc['gamma']} != API {api['gamma']}")
         except Exception as ex:     # noqa: BLE001
             bad.append("JSON mode raised " + repr(ex)[:200])
+        try:
+            # a hand-written file: blanks after the separator belong to the field (the API keeps them, so must the command line);
+            # ' ab' and 'ab' are two categories, ' ann3' is an annotator of its own
+            src_sp = os.path.join(d, "spaced.csv")
+            with open(src_sp, "w") as f:
+                f.write("ann1,ab,0,5\nann1, ab,6,10\nann1,cd,12,18\nann2, ab,0.5,5.5\nann2,ab,6,11\nann2,cd,12,17\n ann3,ab,1,5\n ann3,cd,6.5,10\n ann3, ab,13,18\n")
+            c_sp = pa.Continuum.from_csv(src_sp)
+            cat_sp = pa.LevenshteinCategoricalDissimilarity(c_sp.categories) if cd == "levenshtein" else None
+            if cd != "numerical":
+                np.random.seed(17)
+                r_sp = c_sp.compute_gamma(dissimilarity=pa.CombinedCategoricalDissimilarity(alpha=alpha, beta=beta, delta_empty=delta, cat_dissim=cat_sp),
+                                          precision_level=prec, fast=True, n_samples=n, sampler=pa.ShuffleContinuumSampler() if case.get("mathet") else None)
+                keep = list(argv0)
+                argv0[0] = src_sp
+                try:
+                    pj_sp = os.path.join(d, "osp.json")
+                    run(["-j", pj_sp])
+                    doc_sp = json.load(open(pj_sp))[src_sp]
+                finally:
+                    argv0[:] = keep
+                if sorted(doc_sp.get("gamma-k", {})) != sorted(c_sp.categories) or not close(doc_sp["gamma"], float(r_sp.gamma)):
+                    bad.append(f"hand-written file with blanks after the separator: command line categories {sorted(doc_sp.get('gamma-k', {}))} gamma {doc_sp['gamma']}, "
+                               f"API categories {list(c_sp.categories)} gamma {float(r_sp.gamma)}")
+        except Exception as ex:     # noqa: BLE001
+            bad.append("spaced-file run raised " + repr(ex)[:200])
         if case.get("files", 1) >= 2:
             # two different input files in one invocation: each file's entry must be its own API result
             try:
